@@ -622,7 +622,7 @@ fn gen_targeted(ops: &mut Vec<String>, seed: u64, ncases: u64) {
             }
             let ps = g.st.fdl.inspect_token_ring().previous_station();
             let ns = g.st.fdl.inspect_token_ring().next_station();
-            match rng.below(19) {
+            match rng.below(21) {
                 0 | 1 => {
                     g.deliver(&token(ts, ps));
                 }
@@ -673,6 +673,32 @@ fn gen_targeted(ops: &mut Vec<String>, seed: u64, ncases: u64) {
                             react(&mut g, &mut rng, &ring, &tx, false);
                         }
                     }
+                }
+                19 | 20 => {
+                    // a telegram cut off in mid-transmission (its sender crashed), then silence: the stale
+                    // bytes stay in the receive buffer, but the bus is silent and must be claimed after Tto
+                    let full = match rng.below(4) {
+                        0 => token(ts, ps),
+                        1 => token(*rng.pick(&ring), ps),
+                        2 => status_req(ts, ps),
+                        _ => {
+                            let pdu = rng.bytes_below(8);
+                            enc(
+                                &DataTelegramHeader {
+                                    da: ts,
+                                    sa: ps,
+                                    dsap: None,
+                                    ssap: None,
+                                    fc: FunctionCode::Request { fcb: FrameCountBit::Inactive, req: RequestType::SrdLow },
+                                },
+                                &pdu,
+                            )
+                        }
+                    };
+                    let cut = 1 + rng.below(full.len() as u64 - 1) as usize;
+                    g.rx(&full[..cut]);
+                    g.now += g.bits(11 * cut as u64) + 1;
+                    g.idle(tto + 3 * slot_t, (slot_t / 2).max(1));
                 }
                 16 | 17 | 18 => {
                     // hand the token over; the first request that expects a reply is answered with a chosen,
